@@ -14,12 +14,15 @@ CONSTANTS
  MaxClose = 1
  MaxInval = 1
  MaxCompact = 1
+ MaxBatch = 2
  FixRelease = TRUE
  DevReleaseRace = FALSE
  DevPutIfOwnerOther = FALSE
  DevReacqBlind = FALSE
  DevDropSameRev = FALSE
  DevNoReload = FALSE
+ DevLoadMerge = FALSE
+ DevPutsFirst = FALSE
  FixRev = TRUE
  KeepHist = TRUE
 INIT Init
